@@ -842,6 +842,40 @@ pub fn elaborate(text: &str) -> Result<Result<(Def, des_net_utils::ndl::tree::Ne
     }
 }
 
+/// Initial corpus of the byte-level target: the repository's own test documents plus generated valid documents.
+pub fn seed_documents(seed: u64) -> Vec<Vec<u8>> {
+    let mut out: Vec<Vec<u8>> = Vec::new();
+    let dir = std::path::Path::new("/repo/des/tests/ndl");
+    let mut stack = vec![dir.to_path_buf()];
+    while let Some(d) = stack.pop() {
+        let Ok(rd) = std::fs::read_dir(&d) else { continue };
+        let mut entries: Vec<_> = rd.flatten().map(|e| e.path()).collect();
+        entries.sort();
+        for p in entries {
+            if p.is_dir() {
+                stack.push(p);
+            } else if p.extension().is_some_and(|e| e == "yml") && !p.to_string_lossy().contains(".par.") {
+                if let Ok(b) = std::fs::read(&p) {
+                    out.push(b);
+                }
+            }
+        }
+    }
+    let mut x = seed;
+    for _ in 0..12 {
+        let choices: Vec<u16> = (0..120)
+            .map(|_| {
+                x = x.wrapping_mul(6364136223846793005).wrapping_add(1442695040888963407);
+                (x >> 33) as u16
+            })
+            .collect();
+        let mut ch = Choices { v: &choices, i: 0 };
+        let doc = build_doc(&mut ch);
+        out.push(yaml(&render_model(&doc)).into_bytes());
+    }
+    out
+}
+
 #[derive(Clone, Debug, Serialize, Deserialize)]
 pub struct Case {
     pub choices: Vec<u16>,
@@ -1051,5 +1085,22 @@ impl Prop for C18 {
             Ok((nt, labels)) => Outcome::ok(nt, labels),
             Err(f) => Outcome::failed(f),
         }
+    }
+    fn extra(tier: Tier, seed: u64, ev: &mut ExtraEvidence) -> Vec<Violation> {
+        if tier != Tier::Thorough {
+            return Vec::new();
+        }
+        crate::fuzz::run(
+            &crate::fuzz::Campaign {
+                property: "C18",
+                target: "ndl_text",
+                asan: false,
+                runs: 1_000_000,
+                max_len: 1200,
+                seed,
+                seeds: seed_documents(seed),
+            },
+            ev,
+        )
     }
 }
